@@ -177,6 +177,58 @@ Mon22Step(g, e) ==
       viol |-> UNION {viol(i) : i \in SubIds}]
 
 -----------------------------------------------------------------------------
+(* C24  Monitored item queues keep the right values and survive resizing    *)
+(* Ghost per item: eq = the queue the statement describes (values with the  *)
+(* overflow mark), batches = drained queues not yet seen in a response.     *)
+M24Init == [eq |-> [p \in Pairs |-> <<>>], lastv |-> [p \in Pairs |-> NoVal], dold |-> [p \in Pairs |-> TRUE],
+            batches |-> [p \in Pairs |-> <<>>], ovf |-> [p \in Pairs |-> FALSE]]
+
+Vals24(q) == [j \in 1..Len(q) |-> q[j][1]]
+LastN(q, n) == IF Len(q) > n THEN SubSeq(q, Len(q) - n + 1, Len(q)) ELSE q
+
+Mon24Step(g, e) ==
+  IF e.fail # "none"
+  THEN [g |-> g, viol |-> IF e.ev = "ModifyItem" THEN {"modify-failed:" \o e.site} ELSE {}]
+  ELSE
+  LET newItem(p) == e.ev = "CreateItem" /\ e.sub = p[1] /\ e.item = p[2]
+      modItem(p) == e.ev = "ModifyItem" /\ e.sub = p[1] /\ e.item = p[2]
+      has(p) == HasItem(e, p[1], p[2])
+      it(p) == StItem(e, p[1], p[2])
+      sampled(p) == has(p) /\ it(p).last # NoVal /\ it(p).last # g.lastv[p] /\ ~newItem(p)
+      \* the queue after this step's sample, by the statement (queue size of the post state; a modify never samples)
+      full(p) == Len(g.eq[p]) >= it(p).qsize
+      enq(p) == IF ~full(p) THEN Append(g.eq[p], it(p).last)
+                ELSE IF g.dold[p] THEN Append(Tail(LastN(g.eq[p], it(p).qsize)), it(p).last)
+                ELSE Append(Front(LastN(g.eq[p], it(p).qsize)), it(p).last)
+      eq1(p) == IF newItem(p) THEN <<>>
+                ELSE IF modItem(p) /\ has(p) THEN LastN(g.eq[p], it(p).qsize)
+                ELSE IF sampled(p) THEN enq(p) ELSE g.eq[p]
+      drained(p) == has(p) /\ it(p).q = <<>> /\ eq1(p) # <<>>
+      rs == Resps(e)
+      \* values delivered for p in this record, one batch per DATA response that mentions the item
+      got(p) == SelectSeq([j \in 1..Len(rs) |->
+                   IF rs[j].k = "DATA" /\ rs[j].sub = p[1] /\ (\E k \in 1..Len(rs[j].vals) : rs[j].vals[k][1] = p[2])
+                   THEN Vals24(rs[j].vals[CHOOSE k \in 1..Len(rs[j].vals) : rs[j].vals[k][1] = p[2]][2]) ELSE <<-99>>],
+                 LAMBDA x : x # <<-99>>)
+      b1(p) == IF newItem(p) THEN <<>> ELSE IF drained(p) THEN Append(g.batches[p], eq1(p)) ELSE g.batches[p]
+      v(p) ==
+        IF ~has(p) THEN {}
+        ELSE (IF Len(it(p).q) > it(p).qsize THEN {"queue-longer-than-queue-size"} ELSE {})
+             \cup (IF Vals24(it(p).q) # eq1(p) /\ it(p).q # <<>> THEN {"queue-holds-wrong-values"} ELSE {})
+             \cup (IF Len(got(p)) > Len(b1(p)) \/ (\E j \in 1..Len(got(p)) : j <= Len(b1(p)) /\ got(p)[j] # b1(p)[j])
+                     THEN {"delivered-values-differ-from-queue"} ELSE {})
+             \cup (IF sampled(p) /\ full(p) /\ it(p).qsize > 1 /\ it(p).q # <<>>
+                      /\ ~(\E j \in 1..Len(it(p).q) : it(p).q[j][2] = 1)
+                     THEN {"overflow-not-marked"} ELSE {})
+      g2 == [eq |-> [p \in Pairs |-> IF ~has(p) THEN <<>> ELSE IF drained(p) THEN <<>> ELSE eq1(p)],
+             lastv |-> [p \in Pairs |-> IF newItem(p) \/ ~has(p) THEN NoVal ELSE it(p).last],
+             dold |-> [p \in Pairs |-> IF newItem(p) \/ modItem(p) THEN e.dold ELSE g.dold[p]],
+             batches |-> [p \in Pairs |-> IF ~has(p) THEN <<>>
+                                          ELSE SubSeq(b1(p), Len(got(p)) + 1, Len(b1(p)))],
+             ovf |-> g.ovf]
+  IN [g |-> g2, viol |-> UNION {v(p) : p \in Pairs}]
+
+-----------------------------------------------------------------------------
 (* C26  Timestamps and clock jumps cannot crash; BadTimeout only after the  *)
 (*      request's timeout                                                   *)
 M26Init == [reqs |-> {}]     \* set of [id, ts, hint]
